@@ -508,8 +508,25 @@ package keeper
 
 //@ func DiffValidators pure
 
-//@ func Keeper.ComputeNextValidators pure
+//@ func Keeper.FilterValidators pure
 //@ ensures [frame] S == old(S) && E == old(E) && X == old(X)
+
+//@ func Keeper.PartitionBasedOnPriorityList pure
+//@ ensures [frame] S == old(S) && E == old(E) && X == old(X)
+
+//@ func Keeper.CapValidatorsPower pure
+//@ ensures [frame] S == old(S) && E == old(E) && X == old(X)
+
+//@ func Keeper.ComputeNextValidators pure
+//@ let M := old(k.GetMaxProviderConsensusValidators(ctx))
+//@ ensures [frame] S == old(S) && E == old(E) && X == old(X)
+//@ ensures [candidates] $FilterValidators.called && $FilterValidators.consumerId == consumerId && len($FilterValidators.bondedValidators) <= len(bondedValidators)
+//@ ensures [active-only] !powerShapingParameters.AllowInactiveVals && 0 <= M && M < len(bondedValidators) ==> len($FilterValidators.bondedValidators) == M
+//@ ensures [inactive-allowed] powerShapingParameters.AllowInactiveVals ==> len($FilterValidators.bondedValidators) == len(bondedValidators)
+//@ ensures [filter-error] $FilterValidators.ret1 != nil ==> result1 != nil
+//@ ensures [partition-input] result1 == nil ==> $PartitionBasedOnPriorityList.called && $PartitionBasedOnPriorityList.consumerId == consumerId && $PartitionBasedOnPriorityList.nextValidators == $FilterValidators.ret0
+//@ ensures [priority-first] result1 == nil ==> $CapValidatorSet.called && $CapValidatorSet.powerShapingParameters == powerShapingParameters && len($CapValidatorSet.validators) == len($PartitionBasedOnPriorityList.ret0) + len($PartitionBasedOnPriorityList.ret1) && (forall j int :: 0 <= j && j < len($PartitionBasedOnPriorityList.ret0) ==> $CapValidatorSet.validators[j] == $PartitionBasedOnPriorityList.ret0[j]) && (forall j int :: 0 <= j && j < len($PartitionBasedOnPriorityList.ret1) ==> $CapValidatorSet.validators[len($PartitionBasedOnPriorityList.ret0) + j] == $PartitionBasedOnPriorityList.ret1[j])
+//@ ensures [power-cap-last] result1 == nil ==> $CapValidatorsPower.called && $CapValidatorsPower.validators == $CapValidatorSet.ret && $CapValidatorsPower.validatorsPowerCap == powerShapingParameters.ValidatorsPowerCap && result0 == $CapValidatorsPower.ret
 
 //@ const FamMinPower = fam(types.MinimumPowerInTopNKey(""))
 //@ const FamOptedIn = fam(types.OptedInKey("", types.NewProviderConsAddress(nil)))
